@@ -4,7 +4,7 @@ R-RW-1 alphabet closure of every rewriter (induction over the class table)
 R-RW-2 validity of every extracted rewrite rule (normal form, else oracle)
 R-RW-3 LNot: odd negation parity, never two leading negations
 """
-from ..program import AnalysisError, Inconclusive
+from ..program import AnalysisError, Inconclusive, ClassInfo
 from ..values import Const, Sym, CRef, FRef, App, New, Raise, Tup, walk
 from ..interp import Interp, Hooks
 from ..templates import extract, generic_instances, show
@@ -168,11 +168,122 @@ def _strip(root, k):
     return v
 
 
+def _lnot_instances(prog, r, f):
+    """LNot interpreted on the concrete towers  not^k(c)  (c a formula that
+    is not itself a negation, k = 0..5): the result must be  not c  for even
+    k and  c  for odd k.  Loops whose test is decided by the tower are
+    executed iteration by iteration."""
+    from ..templates import TemplateHooks, make_hole, to_term, show
+    notc = prog.cls('language.Not')
+
+    class H(TemplateHooks):
+        unroll_while = True
+        max_self_recursion = 8
+
+        def call(self, I, fv, args, kw, path, node):
+            if isinstance(fv, FRef) and fv.fi is self.lnot:
+                return None             # LNot itself is what is analysed
+            return TemplateHooks.call(self, I, fv, args, kw, path, node)
+
+        def isinstance(self, I, val, ci, path):
+            if isinstance(val, Sym) and val.meta and \
+                    val.meta[0] == 'hole' and isinstance(ci, ClassInfo) and \
+                    ci.is_subclass_of(notc):
+                return False            # the core is not a negation
+            return TemplateHooks.isinstance(self, I, val, ci, path)
+    n = 0
+    for lang, mod in sorted(LANGS.items()):
+        al = prog.alphabet(mod)
+        if 'Not' not in al:
+            continue
+        h = make_hole(prog, 0, lang)
+        for k in range(0, 6):
+            v = h
+            for _ in range(k):
+                v = New(al['Not'], (v,))
+            hooks = H(prog, 'get_equivalent_restricted_formula')
+            hooks.check_sorts = False
+            I = Interp(prog, hooks, rule='R-RW-3', max_depth=14)
+            path = I.new_path()
+            res = I.call_function(FRef(f), [v], [], path, f.node)
+            want = ('Not', lang, ('raw', 0)) if k % 2 == 0 else ('raw', 0)
+            outs = []
+            for (p, val) in res:
+                if isinstance(val, Raise):
+                    if not val.implicit:
+                        outs.append(('raise', repr(val.exc)[:60]))
+                    continue
+                # Not built in the language of a symbolic operand:
+                # sys.modules[x.__module__].Not(x)
+                if isinstance(val, App) and val.op == 'mcall' and \
+                        val.args[1] == Const('Not') and \
+                        len(val.args[2].items) == 1 and \
+                        isinstance(val.args[0], App) and \
+                        val.args[0].op == 'item' and \
+                        val.args[0].args[1] == App(
+                            'attr', val.args[2].items[0],
+                            Const('__module__')):
+                    try:
+                        outs.append(('Not', lang, to_term(
+                            val.args[2].items[0], prog, p)))
+                        continue
+                    except Inconclusive:
+                        pass
+                try:
+                    outs.append(to_term(val, prog, p))
+                except Inconclusive:
+                    outs.append(('?', repr(val)[:80]))
+            n += 1
+            r.inst(lang=lang, input='not^%d(c)' % k,
+                   returns=[show(t) if t[0] not in ('?', 'raise') else t[1]
+                            for t in outs], expected=show(want))
+            if any(t[0] == '?' for t in outs) or not outs:
+                raise Inconclusive('R-RW-3', 'LNot(not^%d(c)) in %s gives %r'
+                                   % (k, lang, outs), f.where())
+            bad = [t for t in outs if t != want]
+            if bad:
+                r.fail(Finding(
+                    PROP, 'R-RW-3', f.where(), f.short(),
+                    'tower:%s:%d:%s' % (lang, k, show(bad[0])
+                                        if bad[0][0] != 'raise' else 'raise'),
+                    'LNot applied to the %s formula not^%d(c) (c not a '
+                    'negation) returns %s, expected %s: %s' % (
+                        lang, k, show(bad[0]) if bad[0][0] != 'raise'
+                        else 'an exception ' + bad[0][1], show(want),
+                        'the result is equivalent to the argument, not to '
+                        'its negation' if k % 2 == 0 and
+                        bad[0] == ('raw', 0) or k % 2 == 1 and
+                        bad[0] == ('Not', lang, ('raw', 0)) else
+                        'wrong or not in reduced form')))
+            else:
+                r.ok()
+    floor('R-RW-3', 'negation towers', n, 20)
+
+
 def rule_rw3(prog):
     r = RuleResult('R-RW-3', 'LNot: odd negation parity, no double leading '
                    'negation, every language Not is the Not LNot tests')
     f = prog.func('language.LNot')
     r.transparent = (f,)        # the recursive call is part of the shape
+    try:
+        _lnot_instances(prog, r, f)
+        r0 = None
+    except Inconclusive as e:
+        r0 = e
+    try:
+        _rule_rw3_paths(prog, r, f)
+    except Inconclusive as e:
+        if r.findings:
+            return r            # the towers have established a violation
+        e.partial = r
+        raise
+    if r0 is not None:
+        r0.partial = r
+        raise r0
+    return r
+
+
+def _rule_rw3_paths(prog, r, f):
     notc = prog.cls('language.Not')
     I = Interp(prog, _LNotHooks(f), rule='R-RW-3')
     path = I.new_path()
